@@ -32,6 +32,7 @@ type pageRec struct {
 	Tokens     []string          `json:"continue_tokens,omitempty"`
 	Window     []string          `json:"around_window,omitempty"`
 	Times      map[string]string `json:"times_of_results,omitempty"`
+	Cancelled  string            `json:"cancelled,omitempty"`
 }
 
 // MainC09 is the entry point of the C09 check.
@@ -46,6 +47,7 @@ func runC09(r *ev.Run) {
 	index.SetVerboseCorpusLogging(false)
 	r.Assume("the full ordered result is the limit -1 answer of the same handler (its correctness is C08's subject); C09 additionally checks that it is ordered by (time desc, blobref desc) according to the harness's own time facts")
 	r.Assume("termination is decided by a page-count bound, never by time")
+	search.VerifSetCandSourceHook(candSourceHook)
 	nWorlds := r.Pick(30, 200)
 	wrng := r.Rand("worlds")
 	for wi := 0; wi < nWorlds; wi++ {
@@ -126,7 +128,18 @@ func runC09(r *ev.Run) {
 			r.Note("world_features", k)
 		}
 	}
+	runEpochWorldsC09(r)
 	r.Require("time_features", "tied", "distinct", "pre-1970", "subsecond")
+	r.Require("paging", "scroll-with-a-cancelled-caller-context")
+	for _, k := range []string{ctxPreCancelled, ctxCancelledAtPlan, ctxDeadlinePassed} {
+		// (what the server answers is its choice; that the requests were made is required)
+		if r.Noted("cancelled_context", k+"/scroll/answered")+r.Noted("cancelled_context", k+"/scroll/error-then-retried") == 0 {
+			r.Require("cancelled_context", k+"/scroll/answered")
+		}
+		if r.Noted("cancelled_context", k+"/around/answered")+r.Noted("cancelled_context", k+"/around/error") == 0 {
+			r.Require("cancelled_context", k+"/around/answered")
+		}
+	}
 	r.Require("sorts", "-created", "-mod", "blobref", "unspecified", "created", "unsorted")
 	r.Require("paging", "boundary-inside-tied-run", "boundary-inside-tied-run-across-zone-notations", "nodetype-constraint/-created/boundary-inside-tied-run", "nodetype-constraint/unspecified/boundary-inside-tied-run")
 	r.Require("world_features", "typed-batch-member", "date-attr/dateCreated", "date-attr/startDate", "date-attr/paymentDueDate", "date-attr/datePublished", "date-attr/dateModified", "date-attr/notation/Z", "date-attr/notation/+00:00", "date-attr/notation/+02:00", "date-attr/notation/-05:30")
@@ -184,8 +197,45 @@ func (w *sworld) timesOf(refs []blob.Ref, st search.SortType) map[string]string 
 var lastMutation string
 
 func runQuery(m mode, q *search.SearchQuery) (refs []blob.Ref, cont string, err error, pan any) {
+	return runQueryCtx(m, q, "")
+}
+
+// Caller contexts that end while (or before) Handler.Query runs; see c09_special.go.
+const (
+	ctxPreCancelled    = "cancelled-before-the-call"
+	ctxCancelledAtPlan = "cancelled-when-the-candidate-source-is-chosen"
+	ctxDeadlinePassed  = "deadline-already-passed"
+)
+
+// atCandSource, if set, runs once inside the next Handler.Query, right after the planner chose the
+// candidate source and before any candidate is looked at (search.VerifSetCandSourceHook).
+var atCandSource func()
+
+func candSourceHook(name string) {
+	curPlanner = name
+	if f := atCandSource; f != nil {
+		atCandSource = nil
+		f()
+	}
+}
+
+// runQueryCtx is runQuery with the caller's context ending as `kind` says ("" = never).
+func runQueryCtx(m mode, q *search.SearchQuery, kind string) (refs []blob.Ref, cont string, err error, pan any) {
 	qmu.Lock()
 	defer qmu.Unlock()
+	ctx, cancel := context.WithCancel(context.Background())
+	defer cancel()
+	switch kind {
+	case ctxPreCancelled:
+		cancel()
+	case ctxCancelledAtPlan:
+		atCandSource = cancel
+		defer func() { atCandSource = nil }()
+	case ctxDeadlinePassed:
+		var c2 context.CancelFunc
+		ctx, c2 = context.WithDeadline(ctx, time.Unix(1, 0)) // a deadline in 1970: no clock involved
+		defer c2()
+	}
 	before, comparable := snapshotQuery(q)
 	defer func() {
 		lastMutation = "?"
@@ -196,7 +246,7 @@ func runQuery(m mode, q *search.SearchQuery) (refs []blob.Ref, cont string, err 
 	func() {
 		defer func() { pan = recover() }()
 		var res *search.SearchResult
-		res, err = m.sh.Query(context.Background(), q)
+		res, err = m.sh.Query(ctx, q)
 		if err == nil {
 			for _, b := range res.Blobs {
 				refs = append(refs, b.Blob)
@@ -231,6 +281,10 @@ type pager struct {
 	fam string
 	// light: fewer limits and pivots (staged and expression families)
 	light bool
+	// cancelKind / cancelPage (family "cancelled-context/"): the caller's context of the
+	// cancelPage-th query of a scroll (of the around query) ends as cancelKind says
+	cancelKind string
+	cancelPage int
 }
 
 func (p *pager) query(st search.SortType, lim int, cont string, around blob.Ref) *search.SearchQuery {
@@ -248,7 +302,11 @@ func (p *pager) query(st search.SortType, lim int, cont string, around blob.Ref)
 
 // run executes q; a request that comes back changed is reported (once per query).
 func (p *pager) run(q *search.SearchQuery, rec *pageRec) (refs []blob.Ref, cont string, err error, pan any) {
-	refs, cont, err, pan = runQuery(p.m, q)
+	return p.runKind(q, rec, "")
+}
+
+func (p *pager) runKind(q *search.SearchQuery, rec *pageRec, kind string) (refs []blob.Ref, cont string, err error, pan any) {
+	refs, cont, err, pan = runQueryCtx(p.m, q, kind)
 	p.r.Eval(1)
 	switch lastMutation {
 	case "":
@@ -342,6 +400,7 @@ func (p *pager) checkAll(families bool) {
 				sp.checkAround(st, 2, full[n/2], full)
 				sp.checkContinue(st, 1, full)
 				r.Note("paging", "constraint-value-reused-across-scrolls")
+				p.checkCancelled(st, full)
 			}
 		default:
 			// sorts without continuation: no token, or a token chain that is exact all the same
@@ -393,14 +452,35 @@ func (p *pager) checkContinue(st search.SortType, lim int, full []blob.Ref) {
 	continuable := eff == search.CreatedDesc || eff == search.LastModifiedDesc
 	n := len(full)
 	maxPages := (n+lim-1)/lim + 2
+	if p.cancelKind != "" {
+		maxPages += 2 // a page cut short by the cancellation may carry a token all the same
+	}
 	var got []blob.Ref
 	rec := pageRec{CaseID: wid, Constraint: cj, Sort: sortNames[st], Limit: lim, Mode: m.name, Full: refStrings(full)}
 	cont := ""
 	pages := 0
 	terminated := false
 	for pages < maxPages {
-		refs, next, err, pan := p.run(p.query(st, lim, cont, blob.Ref{}), &rec)
+		kind := ""
+		if p.cancelKind != "" && pages+1 == p.cancelPage {
+			kind = p.cancelKind
+			rec.Cancelled = fmt.Sprintf("page %d: caller context %s", pages+1, kind)
+		}
+		refs, next, err, pan := p.runKind(p.query(st, lim, cont, blob.Ref{}), &rec, kind)
+		if kind != "" && pan == nil {
+			if err != nil {
+				// an error is a fine answer to a caller whose context ended; the client asks again
+				r.Note("cancelled_context", kind+"/scroll/error-then-retried")
+				refs, next, err, pan = p.run(p.query(st, lim, cont, blob.Ref{}), &rec)
+			} else {
+				r.Note("cancelled_context", kind+"/scroll/answered")
+				if n > lim*(pages+1) {
+					r.Note("cancelled_context", kind+"/scroll/answered-with-more-results-to-come")
+				}
+			}
+		}
 		pages++
+		noteToken(r, next)
 		if err != nil || pan != nil {
 			r.Violation(p.fam+"page-query-fails/"+sortNames[st], fmt.Sprintf("%s [%s]: page %d failed: %v %v", wid, m.name, pages, err, pan), rec)
 			return
@@ -619,8 +699,18 @@ func timeFeature(w *sworld, full []blob.Ref, st search.SortType) string {
 func (p *pager) checkAround(st search.SortType, lim int, pivot blob.Ref, full []blob.Ref) {
 	r, wid, m, cj := p.r, p.wid, p.m, p.cj
 	rec := pageRec{CaseID: wid, Constraint: cj, Sort: sortNames[st], Limit: lim, Mode: m.name, Around: pivot.String(), Full: refStrings(full)}
-	refs, _, err, pan := p.run(p.query(st, lim, "", pivot), &rec)
+	if p.cancelKind != "" {
+		rec.Cancelled = "caller context " + p.cancelKind
+	}
+	refs, _, err, pan := p.runKind(p.query(st, lim, "", pivot), &rec, p.cancelKind)
 	rec.Window = refStrings(refs)
+	if p.cancelKind != "" && pan == nil {
+		if err != nil {
+			r.Note("cancelled_context", p.cancelKind+"/around/error")
+			return
+		}
+		r.Note("cancelled_context", p.cancelKind+"/around/answered")
+	}
 	if pan != nil {
 		r.Violation(p.fam+"around-query-panics/"+sortNames[st], fmt.Sprintf("%s [%s]: around query panicked: %v (pivot %v, limit %d, %d results in all, constraint %s)", wid, m.name, pan, pivot, lim, len(full), cj), rec)
 		return
